@@ -30,6 +30,8 @@ def build(case):
     a = spec["sections"][-1]
     a["ncols"] = c
     a["title"] = case.get("atitle", "~ASCII")
+    if case.get("scaffold", {}).get("titles", {}).get("A"):
+        case = dict(case, scaffold=dict(case["scaffold"], titles={k: v for k, v in case["scaffold"]["titles"].items() if k != "A"}))
     lines = []
     for rw in case["rows"]:
         lines.append({"t": "row", "toks": rw["toks"], "lead": rw["lead"], "seps": rw["seps"], "trail": rw["trail"]})
@@ -55,7 +57,7 @@ def build(case):
         elif t.startswith("PL"):
             n = int(t[2:])
             spec["sections"].append(lastext.section("P", "~Parameter", [lastext.item("P%d" % i, "", str(i), "parameter %d" % i) for i in range(n)]))
-    return spec
+    return S.apply_scaffold(spec, case.get("scaffold"))
 
 
 class Trace(object):
@@ -201,7 +203,7 @@ def cases(draw, max_rows=10):
     after = draw(st.sampled_from([[], [], [], ["P"], ["O"], ["X"], ["P", "O"], ["X", "P"], ["E"], ["O", "X"], ["OL"], ["PL"], ["X", "OL"]]))
     after = [a + str(draw(st.integers(8, 40))) if a in ("OL", "PL") else a for a in after]
     d = c if draw(st.integers(0, 99)) < 85 else draw(st.integers(0, 10))
-    return dict(c=c, d=d, rows=rows, noise=noise, after=after, nl=draw(st.sampled_from(["\n", "\n", "\r\n"])),
+    return dict(scaffold=draw(S.scaffold()), c=c, d=d, rows=rows, noise=noise, after=after, nl=draw(st.sampled_from(["\n", "\n", "\r\n"])),
                 final_nl=draw(st.sampled_from([True, True, False])),
                 atitle=draw(st.sampled_from(["~ASCII", "~A", "~A  DEPTH  GR", "~Ascii log data"])))
 
